@@ -335,3 +335,37 @@ prop("C17",
      quick=dict(cases=30, shards=8),
      thorough=dict(cases=120, shards=8, timeout=3000),
      )
+
+
+# scenarios added after the seeding rounds (appended to the level texts in MANIFEST.json)
+MORE = {
+    "C01": "Also tall frameworks (64-90 statements, one condition chained over nearly all others: diagrams of 64+ "
+           "levels) on every back-end and order, judged by the strong-Kleene least fixpoint (exact for read-once "
+           "conditions; the oracle itself is validated against enumeration in the oracle crate's tests).",
+    "C05": "Also wide frameworks (10-11 loosely coupled statements, 1024-2048 two-valued models, thousands of learnt "
+           "nogoods): the event sink stops a search that arrives at more two-valued fixpoints than models exist. Every "
+           "fourth shard of every library monitor runs with a logger at trace level that formats every record.",
+    "C06": "Also long histories on one store (14-20 variables, 250 000 nodes quick / 600 000 thorough, ~650 000 memo "
+           "entries) shadowed by the value of every node under 64 fixed assignments, with the full audit whenever the "
+           "table has grown fourfold.",
+    "C07": "Also the long histories of C06 (every result must be the word-wise function of its operands' values "
+           "under 64 fixed assignments; every memo entry sampled at the checkpoints).",
+    "C08": "A quarter of the positives are followed through every consumer of the parse result to the stable models "
+           "(C03 oracle). Big files: 257-66 000 statements (140 000 thorough), labels of 300-600 bytes, decimal labels "
+           "beyond 64 bits.",
+    "C09": "An eighth of the small cases carry one condition nested 30-300 levels deep through every pipeline.",
+    "C13": "Also tall diagrams (33-60 variables, chains and parities, children dozens of levels apart): paths, depth "
+           "and support recounted from the node table, satisfying assignments counted from the structure alone, so "
+           "the ratio is judged exactly without truth tables.",
+    "C14": "Also big (30-60 statements) and tall (64-90 statements, 64+ levels) frameworks through both round trips, "
+           "grounded interpretation against the oracle; CLI exports into a directory of decoy files with related "
+           "names, none of which may change.",
+    "C15": "Also wide files (up to 2048 two-valued models), logging options and RUST_LOG (stdout must not change); a "
+           "run that does not end is judged by progress (all threads asleep, no CPU time for 15 s, pipes drained), "
+           "never by a deadline.",
+    "C18": "Also stores with 1050-2600 nogoods of one size over 11-13 variables, judged on all 2^n total assignments.",
+    "C19": "Also long streams (150 000 nodes quick / 500 000 thorough) through a relay chain polled between "
+           "producer operations.",
+}
+for _pid, _txt in MORE.items():
+    PROPS[_pid]["level_more"] = _txt
